@@ -1,8 +1,31 @@
 import EdpVerif.Drv.Etf
+import EdpVerif.Drv.C02
+import EdpVerif.Drv.C03
+import EdpVerif.Drv.C04
+import EdpVerif.Drv.C05
+import EdpVerif.Drv.C06
+import EdpVerif.Drv.C07
+import EdpVerif.Drv.C08
+import EdpVerif.Drv.C09
+import EdpVerif.Drv.C10
+import EdpVerif.Drv.C11
+import EdpVerif.Drv.C12
+import EdpVerif.Drv.C13
+import EdpVerif.Drv.C14
+import EdpVerif.Drv.C15
+import EdpVerif.Drv.C16
+import EdpVerif.Drv.C17
+import EdpVerif.Drv.C18
+import EdpVerif.Drv.C19
+import EdpVerif.Drv.C20
 namespace Edp.Drv
 
+def handlers : List (List String → Option String) :=
+  [handleEtf, handleC02, handleC03, handleC04, handleC05, handleC06, handleC07, handleC08, handleC09, handleC10,
+   handleC11, handleC12, handleC13, handleC14, handleC15, handleC16, handleC17, handleC18, handleC19, handleC20]
+
 def handle (args : List String) : String :=
-  match handleEtf args with
+  match handlers.findSome? (· args) with
   | some r => r
   | none => "bad-op unknown"
 
